@@ -205,7 +205,13 @@ impl System for WinconSys {
         // one underline style at a time: a token that sets an underline style is only
         // enabled while the model terminal has none (and it sets at most one)
         let g = &self.guards[t];
-        g.is_empty() || (s.model.sgr.ul == Ul::None && g.len() == 1)
+        if !(g.is_empty() || (s.model.sgr.ul == Ul::None && g.len() == 1)) {
+            return false;
+        }
+        // SGR sequences outside the well-formed grammar are not defined by the statement
+        let mut m = s.model.clone();
+        m.feed(&self.tokens[t]);
+        !m.ill_formed
     }
     fn step(&self, s: &WState, t: usize) -> Result<(WState, u64), String> {
         let mut imp = s.imp.clone();
